@@ -65,15 +65,21 @@ impl<T> Block<T> {
         unsafe { MaybeUninit::zeroed().assume_init() }
     }
 
-    // Gets the length of the next block, if it exists.
-    pub(crate) fn next_len(&self, guard: &Guard) -> usize {
+    // Gets the number of slots that writers have claimed in this block, whether or not their
+    // writes have been published yet.
+    fn claimed(&self) -> usize {
+        min(self.write.load(Ordering::Acquire), BLOCK_SIZE)
+    }
+
+    // Gets the number of claimed slots in the next block, if it exists.
+    pub(crate) fn next_claimed(&self, guard: &Guard) -> usize {
         let tail = self.next.load(Ordering::Acquire, guard);
         if tail.is_null() {
             return 0;
         }
 
         let tail_block = unsafe { tail.deref() };
-        tail_block.len()
+        tail_block.claimed()
     }
 
     /// Gets the current length of this block.
@@ -214,8 +220,12 @@ impl<T> AtomicBucket<T> {
 
         // We have to check the next block of our tail in case the current tail is simply a fresh
         // block that has not been written to yet.
+        //
+        // We look at claimed slots rather than at the published length: the published length is
+        // the run of _leading_ published slots, so a completed write sitting behind a slot whose
+        // writer is still in flight would otherwise be invisible and the bucket reported as empty.
         let tail_block = unsafe { tail.deref() };
-        tail_block.len() == 0 && tail_block.next_len(guard) == 0
+        tail_block.claimed() == 0 && tail_block.next_claimed(guard) == 0
     }
 
     /// Pushes an element into the bucket.
@@ -695,7 +705,7 @@ mod tests {
 
         // Just making sure that `is_empty` holds as we go from
         // the first block, to the second block, to exercise the
-        // `Block::next_len` codepath.
+        // `Block::next_claimed` codepath.
         let mut i = 0;
         while i < BLOCK_SIZE * 2 {
             bucket.push(i);
